@@ -23,5 +23,5 @@ echo "== demo WITHOUT change (expect ok)"
 go test -vet=off -count=1 -run 'Demo|ZZ' $PKG 2>&1 | grep -E "^(ok|FAIL|--- FAIL)" | head -3
 git apply $D/patch.diff
 echo "== gosym check $PROP with the change applied to /repo"
-git -C /repo apply $D/patch.diff && (cd /verif && timeout 900 ./bin/gosym check $PROP 2>&1 | grep -E "^(VIOLATION|RESULT|KNOWN|INCONCLUSIVE|  violated)" | cut -c1-260 | head -12) 
+git -C /repo apply $D/patch.diff && (cd /verif && CMD=$(python3 -c "import json;print([c['quick_cmd'] for c in json.load(open('/verif/MANIFEST.json'))['checks'] if c['property_id']=='$PROP'][0])") && timeout 1800 $CMD 2>&1 | grep -E "^(VIOLATION|RESULT|KNOWN|INCONCLUSIVE|  violated)" | cut -c1-260 | head -12) 
 git -C /repo checkout -- .
